@@ -232,14 +232,18 @@ def run_jackknife(case):
     den = rng.uniform(0.5, 2.0, size=n)
     if rng.random() < 0.3:
         num = num * 10.0 ** rng.uniform(-4, 4)
+    cplx = bool(case["s"] % 2)
+    if cplx:   # free-projection style samples: complex numerators and denominators (overlaps with a phase); the estimator is Re(<num>/<den>)
+        num = num + 1j * rng.normal(size=n)
+        den = den * np.exp(1j * rng.normal(size=n) * 0.4)
     mean, sigma = stat_utils.jackknife_ratios(num, den)
-    th = np.array([np.delete(num, i).mean() / np.delete(den, i).mean() for i in range(n)])
+    th = np.array([(np.delete(num, i).mean() / np.delete(den, i).mean()).real for i in range(n)])
     ref_mean = th.mean()
     ref_sigma = math.sqrt((n - 1) / n * np.sum((th - ref_mean) ** 2))
     sc = max(1e-300, abs(ref_mean))
-    events = [judge("jackknife/mean", abs(mean - ref_mean) / sc, 1e-10, "C19/jackknife/mean", n=n),
+    events = [judge("jackknife/mean", abs(mean - ref_mean) / sc, 1e-10, "C19/jackknife/mean", n=n, complex_samples=cplx),
               judge("jackknife/sigma", abs(sigma - ref_sigma) / max(1e-300, ref_sigma), 1e-8, "C19/jackknife/sigma", n=n)]
-    return {"events": events, "nontrivial": True, "sample": {"n": n, "mean": float(mean), "sigma": float(sigma), "ref_sigma": ref_sigma},
+    return {"events": events, "nontrivial": True, "sample": {"n": n, "mean": float(np.real(mean)), "sigma": float(np.real(sigma)), "ref_sigma": ref_sigma, "complex_samples": cplx},
             "counters": {"jackknife_cases": 1}}
 
 
